@@ -22,6 +22,7 @@ def run(ctx: Ctx, chk) -> None:
     chk.run_rule(delim1, ctx)
     chk.run_rule(order1, ctx)
     chk.run_rule(delim2, ctx)
+    chk.run_rule(strip_scan, ctx)
     norm1(ctx, chk, "NORM-1")
     chk.run_rule(stateless1, ctx)
     chk.run_rule(encid1, ctx)
@@ -144,6 +145,57 @@ def encoded_line_trees(ctx: Ctx, post) -> list:
 
     cn = Canon(ctx.I, post, "")
     return [cn.tree(r.value) for r in ctx.own_nodes(post) if isinstance(r, ast.Return) and r.value is not None]
+
+
+def strip_scan(ctx: Ctx, chk) -> None:
+    rule = "STRIP-SCAN"
+    chk.rule(rule, "on the way from the line to the six field texts (the pre_load hook and every function of the package it reaches) nothing removes *leading* whitespace: no `.strip(` / `.lstrip(` call and no `str.strip` / `str.lstrip` handed to map() or a comprehension - a payload that starts with a blank would come back without it (the statement only exempts trailing whitespace of the line)")
+    from .common import callee_names
+
+    schema, hooks = schema_hooks(ctx)
+    pre = hooks["pre_load"][0]
+    seen = {pre.fq: pre}
+    work = [(pre, 0)]
+    while work:
+        g_, d_ = work.pop()
+        for n in ctx.own_nodes(g_):
+            if not (isinstance(n, ast.Call) and isinstance(n.func, (ast.Name, ast.Attribute))):
+                continue
+            try:
+                names = callee_names(ctx, g_, n)
+            except AnalysisError:
+                continue
+            for nm in sorted(names):
+                if not nm.startswith("aiomysensors.") or nm in seen:
+                    continue
+                try:
+                    h = ctx.func(nm)
+                except (AnalysisError, KeyError):
+                    continue
+                if h is None:
+                    continue
+                seen[nm] = h
+                if d_ < 3:
+                    work.append((h, d_ + 1))
+    n_ = 0
+    for fq, g_ in sorted(seen.items()):
+        n_ += 1
+        chk.instance(rule)
+        bad = None
+        for x in ctx.own_nodes(g_):
+            if isinstance(x, ast.Attribute) and x.attr in ("strip", "lstrip"):
+                par = ctx.prog.parents.get(x)
+                called = isinstance(par, ast.Call) and par.func is x
+                on_str_class = isinstance(x.value, ast.Name) and x.value.id == "str"
+                if called or on_str_class:
+                    bad = x
+                    break
+        if bad is None:
+            chk.ok(rule, f"{fq}::no-leading-strip", "no strip / lstrip", g_.where, sample=n_ <= 2)
+        else:
+            par = ctx.prog.parents.get(bad)
+            chk.refute(rule, f"{fq}::{norm(par if isinstance(par, ast.Call) else bad)[:60]}", f"`{norm(par if isinstance(par, ast.Call) else bad)[:70]}` in {g_.qualname} removes leading whitespace on the decode path: a payload that starts with a blank or tab is decoded without it, so encode-then-decode does not return the message", ctx.loc(g_, bad))
+    chk.floor(rule, "functions on the decode path", n_, 1)
 
 
 def delim2(ctx: Ctx, chk) -> None:
